@@ -493,6 +493,78 @@ def op_eq(res, ei, ci, wi):
                           % (case["equilibrium"], desc, dnu), case, "accepted", "exception")
 
 
+def op_units_query(res, ei, ci, wi):
+    """the consistency of an equilibrium's constant can also be asked of an existing object (check_consistent_units(), default
+    arguments): False for a constant of the wrong dimension, True for the right one — also on an object built with the
+    constructor check switched off or whose constant was replaced afterwards"""
+    env = E()
+    chempy = env["chempy"]
+    reac, prod = EQS[ei]
+    dnu = sum(prod.values()) - sum(reac.values())
+    good = 3.0 * env["conc"][ci] ** dnu if dnu else 3.0 * (env["conc"][ci] / env["conc"][ci])
+    K = good if wi is None else _wrong(good, wi)
+    case = dict(op="units_query", args=[ei, ci, wi], equilibrium="%r = %r" % (reac, prod))
+    res.states += 1
+    res.transitions += 2
+    res.evaluations += 2
+    res.nontrivial += 1
+
+    def run():
+        a = chempy.Equilibrium(reac, prod, K, checks=()).check_consistent_units()
+        e2 = chempy.Equilibrium(reac, prod, 3.0, checks=())
+        e2.param = K
+        return bool(a), bool(e2.check_consistent_units())
+
+    got = _obs(run)
+    want = (wi is None, wi is None)
+    if wi is None:
+        # (what is said of a constant of the RIGHT dimension is not promised by the statement — chempy wants it in molar: recorded only)
+        res.outcomes["units-query-right-dimension:%r" % (got,)] += 1
+        return
+    res.outcomes["units-query-%s" % ("ok" if got == want else "WRONG")] += 1
+    if got != want:
+        res.violation("C10|Equilibrium.check_consistent_units|query|%s" % ("wrong-dimension-reported-consistent" if wi is not None else "right-dimension-reported-inconsistent"),
+                      "Equilibrium(%s, K %s).check_consistent_units() on (an object built with checks=(), an object whose param was replaced) = %r, expected %r" % (
+                          case["equilibrium"], "of the right dimension" if wi is None else "times %s**%d" % WRONG[wi], got, want), case, got, list(want))
+
+
+def op_rxn_identity(res, n, ci, ti):
+    """two reactions of one stoichiometry are the same reaction exactly when their constants are the same physical quantity,
+    whatever units express it (==, !=, and the duplicate check of ReactionSystem)"""
+    env = E()
+    chempy = env["chempy"]
+    reac = {1: {"A": 1}, 2: {"A": 1, "B": 1}, 3: {"A": 2, "B": 1}}[n]
+    k1 = _kq(3, n, ci, ti)
+    cj, tj = (ci + 1) % len(CONC), (ti + 1) % len(TIME)
+    ratio = (CONC[ci][1] ** (1 - n) / TIME[ti][1]) / (CONC[cj][1] ** (1 - n) / TIME[tj][1])
+    k_same = _kq(float(3 * ratio), n, cj, tj)  # the same physical constant written in other units
+    k_other = _kq(3, n, cj, tj)  # the same NUMBER in other units: another constant (unless the units happen to be equal)
+    case = dict(op="rxn_identity", args=[n, ci, ti])
+    res.states += 1
+    res.transitions += 3
+    res.evaluations += 1
+    res.nontrivial += 1
+
+    def run():
+        r1 = chempy.Reaction(reac, {"C": 1}, k1)
+        r2 = chempy.Reaction(reac, {"C": 1}, k_same)
+        r3 = chempy.Reaction(reac, {"C": 1}, k_other)
+        out = [True, False, bool(r1 == r3) if ratio != 1 else False]  # (== between unit spellings of one constant is subject to float rounding: not asked)
+        try:
+            chempy.ReactionSystem([r1, r3], "A B C")
+            out.append("two-channels-accepted")
+        except ValueError:
+            out.append("two-channels-refused")
+        return out
+
+    got = _obs(run)
+    want = [True, False, False, "two-channels-accepted" if ratio != 1 else "two-channels-refused"]
+    res.outcomes["reaction-identity-%s" % ("ok" if got == want else "WRONG")] += 1
+    if got != want:
+        res.violation("C10|Reaction.__eq__|constants-in-different-units", "order %d, k = 3 %s**%d/%s vs the same constant and the same number in %s, %s: [==same, !=same, ==other, system of the two channels] = %r, expected %r" % (
+            n, CONC[ci][0], 1 - n, TIME[ti][0], CONC[cj][0], TIME[tj][0], got, want), case, got, want)
+
+
 def op_eq_sum(res, ei, ej, ci, sign):
     """sums and differences of equilibria are equilibria like any other: when one operand carries a plain number although its
     constant has a dimension (products != reactants) and the other a unit-carrying constant, the result's constant has the wrong
@@ -1164,10 +1236,17 @@ def run_chunk(chunk, tier):
                 for ej in range(len(EQS)):
                     for sign in (1, -1):
                         op_eq_sum(res, ei, ej, ci, sign)
+                op_units_query(res, ei, ci, None)
+                for wi in range(len(WRONG)):
+                    op_units_query(res, ei, ci, wi)
                 for ti in (0, 1):
                     op_eq_as_reactions(res, ei, ci, ti, None)
                     for wi in range(len(WRONG)):
                         op_eq_as_reactions(res, ei, ci, ti, wi)
+        for n in (1, 2, 3):
+            for ci in range(len(CONC)):
+                for ti in range(len(TIME)):
+                    op_rxn_identity(res, n, ci, ti)
         res.sample(dict(layer="E", equilibria=[repr(e) for e in EQS]))
     elif kind == "K":
         _layer_K(res, tier, *chunk[1:])
@@ -1213,7 +1292,7 @@ def run_chunk(chunk, tier):
     return res
 
 
-OPS = dict(integrate_seq=op_integrate_seq, accept_after=op_accept_after, rate_seq=op_rate_seq, accept=op_accept, accept_exponent=op_accept_exponent, eq=op_eq, eq_sum=op_eq_sum, many_species=op_many_species, rates_quantities=op_rates_quantities, eq_as_reactions=op_eq_as_reactions, eq_exponent=op_eq_exponent, rate=op_rate, integrate=op_integrate, validate=op_validate, solve=op_solve, to_arrays_reject=op_to_arrays_reject)
+OPS = dict(integrate_seq=op_integrate_seq, accept_after=op_accept_after, rate_seq=op_rate_seq, accept=op_accept, accept_exponent=op_accept_exponent, eq=op_eq, units_query=op_units_query, rxn_identity=op_rxn_identity, eq_sum=op_eq_sum, many_species=op_many_species, rates_quantities=op_rates_quantities, eq_as_reactions=op_eq_as_reactions, eq_exponent=op_eq_exponent, rate=op_rate, integrate=op_integrate, validate=op_validate, solve=op_solve, to_arrays_reject=op_to_arrays_reject)
 
 
 def replay(case):
